@@ -53,7 +53,7 @@ def build(shape, n, tree, subst, x, B=None, mixed=False, tip_states=False):
     bl = branch_vector(n, x)
     tm = {"id": "tree", "type": "UnRootedTreeModel", "newick": trees.newick(tree, names), "taxa": taxa,
           "branch_lengths": impl.param_json("bl", bl if B is None else [bl] * B)}
-    if subst["type"] == "JC69":
+    if subst["type"] in ("JC69", "JC69+I"):
         sm = {"id": "m", "type": "JC69"}
     else:
         sm = {"id": "m", "type": "HKY", "kappa": impl.param_json("kappa", [subst["kappa"]]),
@@ -61,8 +61,12 @@ def build(shape, n, tree, subst, x, B=None, mixed=False, tip_states=False):
     aln = {"id": "aln", "type": "Alignment", "datatype": "nucleotide", "taxa": "taxa",
            "sequences": [{"taxon": names[i], "sequence": "A" + ("C" if i % 16 == 0 else "A") +
                           ("ACGT"[tip_state(2, i)] if mixed else "") + "A"} for i in range(n)]}
+    site = {"id": "sm", "type": "ConstantSiteModel"}
+    if subst["type"].endswith("+I"):
+        # two categories with UNEQUAL proportions: rate 0 with probability pinv, rate 1/(1-pinv) otherwise
+        site = {"id": "sm", "type": "InvariantSiteModel", "invariant": impl.param_json("pinv", [subst["pinv"]])}
     d = {"id": "like", "type": "TreeLikelihoodModel", "tree_model": tm,
-         "site_model": {"id": "sm", "type": "ConstantSiteModel"}, "substitution_model": sm,
+         "site_model": site, "substitution_model": sm,
          "site_pattern": {"id": "sp", "type": "SitePattern", "alignment": aln}}
     if tip_states:
         d["use_tip_states"] = True
@@ -75,10 +79,35 @@ def branch_vector(n, x):
     return [x * (1.0 if j % 2 == 0 else 1.75) for j in range(2 * n - 3)]
 
 
-def ref_loglik(tree, n, x, subst_obj, pats=(0, 1)):
-    """Float reference in the log domain (per-node rescaling): used to place the sweep and in search."""
+def cats_of(subst):
+    """(proportion, rate) of the rate categories of the site model build() uses for this configuration"""
+    if subst["type"].endswith("+I"):
+        p = subst["pinv"]
+        return [(p, 0.0), (1.0 - p, 1.0 / (1.0 - p))]
+    return [(1.0, 1.0)]
+
+
+def cat_matrices(subst_obj, x, rate):
     torch = impl.load()
-    Ms = [subst_obj.p_t(torch.tensor([x * f])).detach().reshape(4, 4).tolist() for f in (1.0, 1.75)]
+    return [subst_obj.p_t(torch.tensor([x * f * rate])).detach().reshape(4, 4).tolist() for f in (1.0, 1.75)]
+
+
+def ref_loglik(tree, n, x, subst_obj, pats=(0, 1), cats=((1.0, 1.0),)):
+    """Float reference in the log domain (per-node rescaling): used to place the sweep and in search."""
+    if len(cats) > 1:
+        per = [ref_loglik_cat(tree, n, x, subst_obj, pats, r) for _p, r in cats]
+        out = []
+        for k, pat in enumerate(pats):
+            terms = [math.log(p) + per[c][k] for c, (p, _r) in enumerate(cats) if per[c][k] > -math.inf]
+            m = max(terms)
+            out.append(PAT_W[pat] * (m + math.log(sum(math.exp(t - m) for t in terms))))
+        return out
+    return [PAT_W[pat] * v for pat, v in zip(pats, ref_loglik_cat(tree, n, x, subst_obj, pats, cats[0][1]))]
+
+
+def ref_loglik_cat(tree, n, x, subst_obj, pats, rate):
+    """ln of the site likelihoods of one rate category (unweighted)"""
+    Ms = cat_matrices(subst_obj, x, rate)
     freqs = [float(v) for v in subst_obj.frequencies.detach().reshape(-1)]
     it = trees.index_tree(tree)
     total = []
@@ -97,15 +126,20 @@ def ref_loglik(tree, n, x, subst_obj, pats=(0, 1)):
                 vb = pr[a] if mr is None else sum(mr[a][b] * pr[b] for b in range(4))
                 out.append(va * vb)
             m = max(out)
+            if m == 0.0:
+                return out, -math.inf
             return [v / m for v in out], sl + sr + math.log(m)
         import sys
         sys.setrecursionlimit(10000)
         p, s = rec(it)
-        total.append(PAT_W[pat] * (math.log(sum(f * v for f, v in zip(freqs, p))) + s))
+        dot = sum(f * v for f, v in zip(freqs, p))
+        total.append(math.log(dot) + s if dot > 0.0 and s > -math.inf else -math.inf)
     return total
 
 
-def coq_case(shape, n, tree, Ms, freqs, mixed=False):
+def coq_case(shape, n, tree, Ms, freqs, mixed=False, props=None):
+    if props is not None:
+        return coq_case_cats(shape, n, tree, Ms, freqs, mixed, props)
     I = lambda v: f"ofQ NumI {C.qlit(v)}"
     M = lambda m: C.coq_list(m, lambda row: C.coq_list(row, I))
     ident = "[[ofQ NumI 1; ofQ NumI 0; ofQ NumI 0; ofQ NumI 0]; [ofQ NumI 0; ofQ NumI 1; ofQ NumI 0; ofQ NumI 0]; " \
@@ -119,6 +153,39 @@ def coq_case(shape, n, tree, Ms, freqs, mixed=False):
             + (f"; (ofQ NumI 1, fun i : nat => lk [{e(0)}; {e(1)}; {e(2)}; {e(3)}] "
                f"(Nat.modulo (i * i + Nat.div i 3) 4) [])" if mixed else "") + "] in "
             f"show_i (loglik NumI 4%nat {C.coq_list(freqs, I)} [P] [ofQ NumI 1] (index_tree {tr}) pats)")
+
+
+def coq_case_cats(shape, n, tree, Ms, freqs, mixed, props):
+    """several rate categories: Ms[k] = the two matrices of category k, props[k] its proportion"""
+    I = lambda v: f"ofQ NumI {C.qlit(v)}"
+    M = lambda m: C.coq_list(m, lambda row: C.coq_list(row, I))
+    ident = "[[ofQ NumI 1; ofQ NumI 0; ofQ NumI 0; ofQ NumI 0]; [ofQ NumI 0; ofQ NumI 1; ofQ NumI 0; ofQ NumI 0]; " \
+            "[ofQ NumI 0; ofQ NumI 0; ofQ NumI 1; ofQ NumI 0]; [ofQ NumI 0; ofQ NumI 0; ofQ NumI 0; ofQ NumI 1]]"
+    tr = f"(caterpillar {C.natlit(n - 1)})" if shape == "caterpillar" else trees.coq_tree(tree)
+    e = lambda k: "[" + "; ".join(("ofQ NumI 1" if j == k else "ofQ NumI 0") for j in range(4)) + "]"
+    Ps = "; ".join(f"(fun j : nat => if Nat.eqb j {C.natlit(2 * n - 3)} then {ident} else "
+                   f"lk [{M(Mk[0])}; {M(Mk[1])}] (Nat.modulo j 2) [])" for Mk in Ms)
+    return (f"let pats := [(ofQ NumI 2, fun i : nat => {e(0)}); "
+            f"(ofQ NumI 1, fun i : nat => if Nat.eqb (Nat.modulo i 16) 0 then {e(1)} else {e(0)})"
+            + (f"; (ofQ NumI 1, fun i : nat => lk [{e(0)}; {e(1)}; {e(2)}; {e(3)}] "
+               f"(Nat.modulo (i * i + Nat.div i 3) 4) [])" if mixed else "") + "] in "
+            f"show_i (loglik NumI 4%nat {C.coq_list(freqs, I)} [{Ps}] {C.coq_list(props, I)} (index_tree {tr}) pats)")
+
+
+def evb(model, k):
+    """values of a batched evaluation (k rows), or the exception for every row"""
+    try:
+        return [float(v) for v in model().detach()]
+    except Exception as ex:  # noqa
+        return [f"raises {type(ex).__name__}: {str(ex)[:100]}"] * k
+
+
+def ev(model):
+    """value of one evaluation, or a description of the exception it raises (a finding with its input)"""
+    try:
+        return float(model().detach())
+    except Exception as ex:  # noqa
+        return f"raises {type(ex).__name__}: {str(ex)[:100]}"
 
 
 def run(tier, seed, replay=None):
@@ -138,12 +205,16 @@ def run(tier, seed, replay=None):
     t0 = time.time()
     for shape in shapes:
         for subst in ([dict(type="JC69")] if tier == "quick" and shape != "caterpillar" else
-                      [dict(type="JC69"), dict(type="HKY", kappa=3.0, freqs=[0.1, 0.4, 0.3, 0.2])]):
+                      [dict(type="JC69"), dict(type="HKY", kappa=3.0, freqs=[0.1, 0.4, 0.3, 0.2]),
+                       dict(type="JC69+I", pinv=0.3)]):
             tree = make_tree(shape, n, rng)
             like, dic = build(shape, n, tree, subst, 0.01)
             sm = like.subst_model
             # place the sweep: bisection on the branch-length scale for the smaller of the two site log-likelihoods
-            f = lambda x: min(v / PAT_W[k] for k, v in enumerate(ref_loglik(tree, n, x, sm)))
+            cats = cats_of(subst)
+            # (with an invariant category the site likelihood of a conserved column never underflows: place the
+            #  sweep on the variable category, whose partials are the ones that do)
+            f = lambda x: min(ref_loglik_cat(tree, n, x, sm, (0, 1), cats[-1][1]))
             def solve(target):
                 lo, hi = 1e-4, 50.0
                 if f(hi) > target:
@@ -167,14 +238,14 @@ def run(tier, seed, replay=None):
             # (1) fresh model per point
             for x in xs:
                 lk, dc = build(shape, n, tree, subst, x)
-                v = float(lk().detach())
+                v = ev(lk)
                 evals.append(dict(shape=shape, subst=subst, tree=tree, x=x, mode="fresh", value=v,
                                   flag_before=False, flag_after=bool(lk.rescale)))
             # (1b) the tip-STATES code path (its own recursion and its own switch), fresh model per point
             for x in xs[1:2 + per_band:2] + xs[-2:-1]:
                 lk, dc = build(shape, n, tree, subst, x, tip_states=True)
-                v = float(lk().detach())
-                v2 = float(lk().detach())       # evaluated again: must be the same number
+                v = ev(lk)
+                v2 = ev(lk)       # evaluated again: must be the same number
                 evals.append(dict(shape=shape, subst=subst, tree=tree, x=x, mode="fresh-tipstates", value=v,
                                   flag_before=False, flag_after=bool(lk.rescale)))
                 evals.append(dict(shape=shape, subst=subst, tree=tree, x=x, mode="again-tipstates", value=v2,
@@ -184,7 +255,7 @@ def run(tier, seed, replay=None):
             fb = bool(like.rescale)
             for x in hist:
                 dic["bl"].tensor = torch.tensor(branch_vector(n, x))
-                v = float(like().detach())
+                v = ev(like)
                 evals.append(dict(shape=shape, subst=subst, tree=tree, x=x, mode="history", value=v,
                                   flag_before=fb, flag_after=bool(like.rescale)))
                 fb = bool(like.rescale)
@@ -192,7 +263,7 @@ def run(tier, seed, replay=None):
             rows = [xs[0], xs[2 + per_band // 2], xs[-1]]
             lkb, dcb = build(shape, n, tree, subst, 0.01, B=len(rows))
             dcb["bl"].tensor = torch.tensor([branch_vector(n, x) for x in rows])
-            vb = [float(v) for v in lkb().detach()]
+            vb = evb(lkb, len(rows))
             for x, v in zip(rows, vb):
                 evals.append(dict(shape=shape, subst=subst, tree=tree, x=x, mode="batched", value=v,
                                   flag_before=False, flag_after=bool(lkb.rescale)))
@@ -201,7 +272,7 @@ def run(tier, seed, replay=None):
             rows2 = [xs[-1], xs[0], xs[2 + per_band // 3]]
             fbb = bool(lkb.rescale)
             dcb["bl"].tensor = torch.tensor([branch_vector(n, x) for x in rows2])
-            vb2 = [float(v) for v in lkb().detach()]
+            vb2 = evb(lkb, len(rows2))
             for x, v in zip(rows2, vb2):
                 evals.append(dict(shape=shape, subst=subst, tree=tree, x=x, mode="batched-history", value=v,
                                   flag_before=fbb, flag_after=bool(lkb.rescale)))
@@ -211,7 +282,7 @@ def run(tier, seed, replay=None):
             for x in xm:
                 lk, dc = build(shape, n, tree, subst, x, mixed=True)
                 try:
-                    v = float(lk().detach())
+                    v = ev(lk)
                 except Exception as ex:  # noqa
                     v = f"raises {type(ex).__name__}: {str(ex)[:100]}"
                 evals.append(dict(shape=shape, subst=subst, tree=tree, x=x, mode="fresh", value=v, mixed=True,
@@ -229,8 +300,12 @@ def run(tier, seed, replay=None):
                 fb = bool(lkm.rescale)
             for e in evals:
                 if "ref" not in e and e["shape"] == shape and e["subst"] == subst:
-                    e["ref"] = sum(ref_loglik(tree, n, e["x"], sm, (0, 1, 2) if e.get("mixed") else (0, 1)))
-                    e["Ms"] = [sm.p_t(torch.tensor([e["x"] * fct])).detach().reshape(4, 4).tolist() for fct in (1.0, 1.75)]
+                    e["ref"] = sum(ref_loglik(tree, n, e["x"], sm, (0, 1, 2) if e.get("mixed") else (0, 1), cats))
+                    if len(cats) > 1:
+                        e["Ms"] = [cat_matrices(sm, e["x"], r) for _p, r in cats]
+                        e["props"] = [p_ for p_, _r in cats]
+                    else:
+                        e["Ms"] = cat_matrices(sm, e["x"], 1.0)
                     e["freqs"] = [float(v) for v in sm.frequencies.detach().reshape(-1)]
     rep.timings["impl_sweep"] = round(time.time() - t0, 2)
 
@@ -283,7 +358,8 @@ def run(tier, seed, replay=None):
     for e in evals:
         uniq.setdefault((e["shape"], e["subst"]["type"], e["x"], bool(e.get("mixed"))), e)
     keys = list(uniq)
-    exprs = [coq_case(uniq[k]["shape"], n, uniq[k]["tree"], uniq[k]["Ms"], uniq[k]["freqs"], k[3]) for k in keys]
+    exprs = [coq_case(uniq[k]["shape"], n, uniq[k]["tree"], uniq[k]["Ms"], uniq[k]["freqs"], k[3], uniq[k].get("props"))
+             for k in keys]
     res = C.run_cases(PID, HEADER, exprs, shard=max(1, len(exprs) // 48 + 1), timeout=1500)
     model = {k: C.ival_to_fracs(v) for k, v in zip(keys, res)}
     rep.timings["model_eval"] = round(time.time() - t0, 2)
